@@ -20,10 +20,10 @@
                                 (c05_single_variable_conj_on_off).  Induction over the tree with a
                                 specification for every operator cache (`Lemmas/MachineOne.lean`:
                                 TSpec/NB, cmp_top, cmp_bound, andStep_one, bound_ok, top_ok).
-    c05_single_variable_tree    THE EVALUATOR, result cache enabled, for ANY single-variable tree of
-                                conjunctions and disjunctions over comparisons, truth tests and
-                                predicates (negations at the leaves, as `not_` builds them), non-empty
-                                domain: each of any number of consecutive evaluations returns exactly
+    c05_single_variable_tree    THE EVALUATOR, result cache enabled, for ANY single-variable condition:
+                                conjunctions, disjunctions and sub-queries in condition position over
+                                comparisons, truth tests and predicates (negations at the leaves, as
+                                `not_` builds them; no flatten), non-empty domain: each of any number of consecutive evaluations returns exactly
                                 the L1 rows, in order (c05_single_variable_tree_on_off: hence the rows
                                 of the cache-less evaluator when the variable is selected).  Here the
                                 left operand of every ElseIf is asked for its FALSE outputs as well, so
@@ -191,29 +191,30 @@ example :
     (rowsM natWorld D P true q (afterEvalsOn P natWorld D q 2 [])).1 = [[2], [3]] ∧
     rows natWorld D q = [[2], [3]] := by decide
 
-/-- **C05 at the evaluator, ANY single-variable and/or tree.**  With the result cache ENABLED, the
-    `n`-th consecutive evaluation of the query object (n = 0, 1, 2, …) by the stateful evaluator - result
-    caches of comparisons, conjunctions and disjunctions, coverage poisoning, duplicate tracking sets -
-    returns exactly the rows of the L1 evaluation, in order: for every tree of conjunctions and
-    disjunctions over comparisons, truth tests and predicates of one variable over a non-empty domain of
-    distinct objects. -/
+/-- **C05 at the evaluator, ANY single-variable condition.**  With the result cache ENABLED, the `n`-th
+    consecutive evaluation of the query object (n = 0, 1, 2, …) by the stateful evaluator - result caches of
+    comparisons, conjunctions and disjunctions, coverage poisoning, duplicate tracking sets - returns exactly
+    the rows of the L1 evaluation, in order: for every condition over one variable (conjunctions,
+    disjunctions, sub-queries in condition position, over comparisons, truth tests and predicates; negations
+    at the leaves, as `not_` builds them; no flatten) over a non-empty domain of distinct objects. -/
 theorem c05_single_variable_tree (W : World V) (D : VarId → List V) (P : Params V) (x : VarId)
     (hk : KeyOk P x D) (hinj : Function.Injective P.rank) (hD : D x ≠ [])
-    (q : Query V) (c : Cond V) (hq : q.cond = some c) (hc : Machine.Cond.tree c = true)
+    (q : Query V) (c : Cond V) (hq : q.cond = some c)
     (hs : Cond.single x c) (hf : c.noFlat = true) (n : Nat) :
     (rowsM W D P true q (afterEvalsOn P W D q n [])).1 = rows W D q :=
-  rowsM_on_any_tree_iter P x W D hk hinj hD q c hq hc hs hf n [] (topInv_nil P x W D c [] false) dedupClean_nil
+  rowsM_on_any_tree_iter P x W D hk hinj hD q c hq (Machine.Cond.tree_all c) hs hf n []
+    (topInv_nil P x W D c [] false) dedupClean_nil
 
 /-- … hence caching on and caching off agree on every evaluation (the variable being selected, so that the
     cache-less evaluator's duplicate tracking is covered by `rowsM_off_all_selected`). -/
 theorem c05_single_variable_tree_on_off (W : World V) (D : VarId → List V) (P : Params V) (x : VarId)
     (hk : KeyOk P x D) (hinj : Function.Injective P.rank) (hD : D x ≠ []) (hDn : KeysNodup P.toKey D)
-    (q : Query V) (c : Cond V) (hq : q.cond = some c) (hc : Machine.Cond.tree c = true)
+    (q : Query V) (c : Cond V) (hq : q.cond = some c)
     (hs : Cond.single x c) (hf : c.noFlat = true)
     (hall : ∀ v ∈ c.vars, v ∈ q.sel.flatMap Term.binds) (n m : Nat) :
     (rowsM W D P true q (afterEvalsOn P W D q n [])).1 =
       (rowsM W D P false q (afterEvals W D P q m [])).1 := by
-  rw [c05_single_variable_tree W D P x hk hinj hD q c hq hc hs hf n,
+  rw [c05_single_variable_tree W D P x hk hinj hD q c hq hs hf n,
     rowsM_off_all_selected_iter W D P hinj hDn q c hq hf hall m [] dedupClean_nil]
 
 /-- Non-vacuity: a disjunction under a conjunction, three evaluations in a row with the cache enabled. -/
